@@ -270,6 +270,11 @@ class Normalizer:
                         return ("collectmap", strip_adapters(a[2]), body[1], kv[0], kv[1])
                     return ("collect", ("hof", "filter", strip_adapters(a[2]), M(a[3], "some"), ()), ("proj", a[3], SOME, 0))
             return t
+        if k == "matches" and t[2][0] == "slice" and t[2][3] and t[2][2] and all(wildish(y) for y in t[2][1]) and all(wildish(y) for y in t[2][3]):
+            # `[a, .., z]` with plain bindings: only the length matters
+            x, d = strip_adapters(t[1]), t[2]
+            n = len(d[1]) + len(d[3])
+            return neg(("call", EMPTY, (x,))) if n == 1 else ("bin", ">=", ("call", "#len", (x,)), ("lit", _int(n)))
         if k == "matches" and t[2][0] == "slice":
             x, d = strip_adapters(t[1]), t[2]
             before, rest, after = d[1], d[2], d[3]
@@ -316,6 +321,11 @@ class Normalizer:
                     return acc
                 if x[1].split("::")[-2] == d[1].split("::")[-2] and x[1].split("::")[-1] != d[1].split("::")[-1]:
                     return ("lit", False)
+            if not irrefutable and x[0] == "ite" and self.is_variant_tree(x):
+                # a pattern with sub-patterns against a case split over constructors: the test of each case
+                a, b = self.rewrite(("matches", x[2], d)), self.rewrite(("matches", x[3], d))
+                if not (a[0] == "matches" and a[1] == x[2]) and not (b[0] == "matches" and b[1] == x[3]):
+                    return self.bool_ite(x[1], a, b)
             if irrefutable and x[0] == "ite":
                 a, b = self.rewrite(("matches", x[2], d)), self.rewrite(("matches", x[3], d))
                 T_, F_ = ("lit", True), ("lit", False)
@@ -450,6 +460,42 @@ class Normalizer:
             if a[0] == "lit" and b[0] == "lit" and a[1] is False and b[1] is True:
                 return neg(c)
             return ("ite", c, a, b)
+        if k == "switch" and t[1][0] == "ite" and self.is_variant_tree(t[1]) and \
+                (any(g is not None for (d, g), v in t[2]) or any(d[0] == "var" and desc_kind(d) is None and last(d[1]) in ("Some", "Ok", "Err") for (d, g), v in t[2])):
+            # a `match` with guards on a value that is itself a case split over constructors: the match of each case
+            a = self.rewrite(("switch", t[1][2]) + tuple(t[2:]))
+            b = self.rewrite(("switch", t[1][3]) + tuple(t[2:]))
+            if a[0] != "switch" and b[0] != "switch":
+                return self.rewrite(("ite", t[1][1], a, b))
+        if k == "switch" and t[1][0] in ("ctor", "lit") and \
+                (any(g is not None for (d, g), v in t[2]) or any(d[0] == "var" and desc_kind(d) is None and last(d[1]) in ("Some", "Ok", "Err") for (d, g), v in t[2])):
+            # a `match` with guards on a known constructor: arms are tried in order; an arm is taken when its pattern matches (a plain
+            # condition once the constructor is known) and its guard holds, otherwise the search goes on; the last arm of the
+            # exhaustive match is the default
+            scrut, arms = t[1], t[2]
+            chain = []
+            ok_ = True
+            for (d, g), v in arms:
+                c = ("lit", True) if d[0] == "wild" else self.rewrite(("matches", scrut, d))
+                if c == ("lit", False):
+                    continue
+                if c[0] == "matches" and c[1] == scrut:
+                    ok_ = False             # a pattern that is not understood
+                    break
+                cond = c if g is None else (g if c == ("lit", True) else self.rewrite(("bin", "&&", c, g)))
+                chain.append((cond, v))
+                if cond == ("lit", True):
+                    break
+            if ok_ and chain:
+                partial_ = len(t) > 3 and t[3] == "partial"
+                if partial_ and chain[-1][0] != ("lit", True):
+                    chain.append((("lit", True), ("never",)))         # no listed arm matches: the arm that does has left the function
+                acc = chain[-1][1]
+                for cond, v in reversed(chain[:-1]):
+                    acc = self.rewrite(("ite", cond, v, acc))
+                return acc
+            if ok_ and not chain and len(t) > 3 and t[3] == "partial":
+                return ("never",)
         if k == "switch" and t[1][0] in ("ite", "ctor", "lit") and all(g is None for (d, g), v in t[2]):
             # a `match` on a value that is itself a case split over constructors: select the arm(s)
             scrut, arms = t[1], t[2]
@@ -483,6 +529,8 @@ class Normalizer:
             # a `match` with guards that yields Some(..) / None: arms are tried in order, an arm is taken when its pattern matches and its
             # guard holds (patterns bind nothing here: bound names are projections of the scrutinee)
             scrut, arms = t[1], t[2]
+            if len(t) > 3 and t[3] == "partial" and not (wildish(arms[-1][0][0]) and arms[-1][0][1] is None):
+                arms = tuple(arms) + (((("wild",), None), ("never",)),)       # the remaining cases left the function
             acc = arms[-1][1]
             for (d, g), v in reversed(arms[:-1]):
                 c = ("lit", True) if d[0] == "wild" else self.rewrite(("matches", scrut, d))
@@ -494,6 +542,8 @@ class Normalizer:
             # a `match` on the shape of a slice (`[] => .., [first, rest @ ..] => ..`) is a case split on its length; the last arm of an
             # exhaustive match is taken when no earlier one is
             scrut, arms = t[1], t[2]
+            if len(t) > 3 and t[3] == "partial" and not wildish(arms[-1][0][0]):
+                arms = tuple(arms) + (((("wild",), None), ("never",)),)       # the remaining cases left the function
             acc = arms[-1][1]
             for (d, g), v in reversed(arms[:-1]):
                 c = ("lit", True) if d[0] == "wild" else self.rewrite(("matches", scrut, d))
@@ -895,6 +945,18 @@ class Normalizer:
                                 t2, pol2 = t2[1], not pol2
                             if not (t2[0] == "lit" and isinstance(t2[1], bool)):
                                 out.append(("if", t2, pol2, c[4] if len(c) > 4 else None))
+                elif d[0] in ("var", "wild") and scrut[0] in ("ite", "ctor") and self.is_variant_tree(scrut) and not (len(c) > 7 and c[7]) \
+                        and all(isinstance(d_, tuple) and d_ and d_[0] in ("var", "wild") for d_ in (c[5] if len(c) > 5 and c[5] else ())):
+                    # a `match` on a value that is a case split over Some(..) / None built right here (e.g. by an inlined helper): the arm's
+                    # test, and the tests of the earlier arms that were not taken, as plain conditions
+                    t = ("lit", True) if d[0] == "wild" else self.rewrite(("matches", scrut, d))
+                    if not (t[0] == "lit" and isinstance(t[1], bool) and t[1] == bool(c[3])):
+                        out.append(("if", t, c[3], c[4] if len(c) > 4 else None))
+                    if c[3] and len(c) > 5 and c[5]:
+                        for d_ in c[5]:
+                            t2 = ("lit", True) if d_[0] == "wild" else self.rewrite(("matches", scrut, d_))
+                            if not (t2[0] == "lit" and t2[1] is False):
+                                out.append(("if", t2, False, c[4] if len(c) > 4 else None))
                 elif d[0] == "var" and isinstance(d[1], str) and last(d[1]) in ("Some", "Ok") and d[3] != "struct" and len(d[2]) == 1 and d[2][0][0] == "lit" \
                         and not (len(c) > 7 and c[7]):
                     # `Some(0) => ..`: the value is Some and its payload is the literal (earlier arms of other variants cannot interfere)
